@@ -29,21 +29,24 @@ def run(P: Program, rep: Report):
         rep.check(nm == "InvalidNameError", "C13.R1", f"raise:{norm_stmt(r)[:60]}", f"{f.module.relpath}:{r.lineno}", f"raises {nm}, not InvalidNameError")
     spl = P.cls("middlewares.names", "SplitNameParts")
 
-    def contain(ctx):
+    def contain(ctx, cargs=(), ckw=None):
         it = driver_interp(P, ctx, "middlewares.names")
         mk = lambda c, *a, **k: new_obj(it, P, "model", c, *a, **k)
         e = mk("Entry", entry_type="a", key="k", start_line=0, raw="r", fields=AList([
             mk("Field", key="title", value="t", start_line=1), mk("Field", key="author", value=AList(["Good Name", "bad } name"]), start_line=2)]))
         try:
-            out = call(it, it.construct(spl, [], {}), "transform_entry", e, Unknown("lib"))
+            out = call(it, it.construct(spl, list(cargs), dict(ckw or {})), "transform_entry", e, Unknown("lib"))
         except Raised as r:
             return ("raise", r.cls_name())
         ok = isinstance(out, AObj) and out.cls.name == "MiddlewareErrorBlock" and it.get_attr(out, "ignore_error_block") is e \
             and isinstance(it.get_attr(out, "error"), AObj) and it.get_attr(out, "error").cls.name == "InvalidNameError"
         return ("ok" if ok else "wrong", repr(out))
-    for ctx, v in explore(contain, 10):
-        rep.check(v[0] == "ok", "C13.R1", "middleware-containment", spl.loc,
-                  f"SplitNameParts on an invalid name: {v}; expected a MiddlewareErrorBlock holding the entry and the InvalidNameError")
+    for label, cargs, ckw in (("default", (), None), ("positional-False", (False,), None), ("positional-True", (True,), None),
+                              ("keyword-inplace-False", (), {"allow_inplace_modification": False}),
+                              ("positional-both", (True, ("author",)), None)):
+        for ctx, v in explore(lambda ctx: contain(ctx, cargs, ckw), 10):
+            rep.check(v[0] == "ok", "C13.R1", f"middleware-containment:{label}", spl.loc,
+                      f"SplitNameParts({label}) on an invalid name: {v}; expected a MiddlewareErrorBlock holding the entry and the InvalidNameError")
     common.exception_copy_safety(P, rep, "C13.R1")
 
     rep.rule("C13.R2", "every character once: the tokeniser, abstractly interpreted over a stream of character classes (backslash, "
@@ -89,3 +92,8 @@ def run(P: Program, rep: Report):
         rep.fail("C13.R4", f"partition:{k}", fi.loc, f"{v['input']!r} (case pattern {v['pattern']}): got {v['got']}, BibTeX's rule gives {v['want']}", v)
     if not issues:
         rep.ok("C13.R4", f"partition:{n}-patterns", fi.loc)
+
+    rep.rule("C13.R9", "no unsafe memoisation in the modules this property rests on: a function decorated with lru_cache / cache / "
+                      "cached_property neither takes nor returns a mutable object (else later calls see stale or shared results)")
+    from . import common as _common
+    _common.no_unsafe_memoisation(P, rep, "C13.R9", ['middlewares.names'])
